@@ -312,6 +312,10 @@ func (ex *Exec) PtrToNewObject(g *ssa.Global, content *Cell) *Cell {
 	if p, ok := pt.Underlying().(*types.Pointer); ok {
 		et = p.Elem()
 	}
+	if _, isPtr := pt.Underlying().(*types.Pointer); !isPtr {
+		// the variable holds the object itself (an array / struct value), not a pointer to it
+		return content
+	}
 	o := ex.newObj(g.Name()+"*", et, Origin{Kind: "global", Root: globalKey(g)}, content)
 	return &Cell{V: &Ptr{Obj: o}}
 }
